@@ -595,8 +595,9 @@ C04_Prefix == \A port \in AllInPorts : \A op \in InitUps(port) \cap AllOuts :
 C04_AtReturn == phase = "returned" =>
    /\ \A port \in ConsumerPorts \cup SinkPorts : \A op \in InitUps(port) \cap AllOuts :
          Items(FromSub(recvd[port] \o q[port], op)) = emitted[op]
-   /\ DOMAIN execs = ExpExecKeys
+   /\ MergeInsensitive => DOMAIN execs = ExpExecKeys     \* otherwise the pairing across ports depends on the merge order
    /\ MergeInsensitive => final = Pre \cup ExpFiles
+   /\ Cardinality(DOMAIN execs) = Cardinality(ExpExecKeys) \/ Pre # {}
 C04_Tasks == phase = "returned" => \A n \in CmdRun : Len(tk[n]) = NSets(n)
 
 \* C05: Run returns only when every started process is done, every task is done, every item
@@ -626,11 +627,11 @@ C09_FailStops == /\ failed # {} => phase = "failed"
                  /\ \A n \in CmdRun : \A k \in DOMAIN ts[n] :
                        TKey(n, k) \in failed => TOuts(n, k) \cap final = {}
 WillFail == \E t \in ExpTasks : t.key \in DOMAIN Faults /\ t.outs \cap Pre = {}
-C09_NoSilent == (phase = "returned") => ~WillFail
+C09_NoSilent == (phase = "returned" /\ MergeInsensitive) => ~WillFail
 
 \* C02: a task whose outputs pre-exist is never executed
-C02_NoReexec == \A t \in ExpTasks : t.outs \cap Pre # {} => t.key \notin DOMAIN execs
+C02_NoReexec == MergeInsensitive => \A t \in ExpTasks : t.outs \cap Pre # {} => t.key \notin DOMAIN execs
 
 \* C16: only processes of the upstream closure execute anything
-C16_Closure == \A key \in DOMAIN execs : \E t \in ExpTasks : t.key = key
+C16_Closure == MergeInsensitive => \A key \in DOMAIN execs : \E t \in ExpTasks : t.key = key
 =============================================================================
